@@ -365,6 +365,8 @@ class Gen:
                 kinds.append(('break', 2))
             if self.locals is not None:
                 kinds.append(('return', 3))
+            if self.opts.get('nested_defs') and self.locals is None and not self.in_matrix:
+                kinds.append(('define', self.opts['nested_defs']))
         over = self.opts.get('weights', {})
         kinds = [(k, over.get(k, w)) for k, w in kinds]
         if self.in_matrix:
@@ -608,6 +610,16 @@ class Gen:
     def as_block_coq(s):
         return s[1] if s[1].startswith('(SBlock') else '(SBlock [%s])' % s[1]
 
+    def st_define(self, last):
+        self.prev_open = False
+        saved_depth = self.depth
+        self.depth = 1
+        try:
+            st = self.gen_routine()
+        finally:
+            self.depth = saved_depth
+        return st if st is not None else self.st_reg(last)
+
     def st_break(self, last):
         self.prev_open = False
         return ('break', 'SBreak')
@@ -847,7 +859,7 @@ class Gen:
         return items
 
 
-ALL_KINDS = {'reg', 'set', 'power', 'assign', 'print', 'wait', 'time', 'units', 'get', 'printf', 'if', 'repeat',
+ALL_KINDS = {'define', 'reg', 'set', 'power', 'assign', 'print', 'wait', 'time', 'units', 'get', 'printf', 'if', 'repeat',
              'call', 'break', 'return', 'stage'}
 
 
